@@ -13,7 +13,7 @@ import (
 )
 
 // callees assumed to have no effect on modelled memory / ghost state and not to panic
-var pureCallee = regexp.MustCompile(`(\.String$|\.Error$|\.Logger$|\.EventManager$|\.GoString$|POSHooks\.|\.Codespace$|\.WithEventManager$|\.ConsensusParams$|\.PubKey$|CheckConsensusPubKey$|^encoding/hex\.|rpc/client\.NewHTTP$|node\.Node\.Config$|\.Events$)|^(fmt\.|errors\.|strings\.|strconv\.|\*?types\.(New)?Err|types\.newError|\*?types\.sdkError\.|types\.Err[A-Z]|x/[a-z]+/types\.Err[A-Z]|x/[a-z]+/types\.Codespace|\*?github\.com/tendermint/tendermint/libs/log\.|\*?github\.com/tendermint/tendermint/libs/common\.|\*?github\.com/pkg/errors\.|types\.NewEvent|types\.NewAttribute|\*?types\.EventManager\.|types\.Events\.|types\.Event\.|log\.|os\.Exit|time\.Now|\*?bytes\.Buffer\.)`)
+var pureCallee = regexp.MustCompile(`(\.String$|\.Error$|\.Logger$|\.EventManager$|\.GoString$|POSHooks\.|\.Codespace$|\.WithEventManager$|\.ConsensusParams$|\.PubKey$|CheckConsensusPubKey$|^encoding/hex\.|encoding/base64\.|^encoding/json\.|go-amino\.Codec\.(Must)?Marshal|rpc/client\.NewHTTP$|node\.Node\.Config$|\.Events$)|^(fmt\.|errors\.|strings\.|strconv\.|\*?types\.(New)?Err|types\.newError|\*?types\.sdkError\.|types\.Err[A-Z]|x/[a-z]+/types\.Err[A-Z]|x/[a-z]+/types\.Codespace|\*?github\.com/tendermint/tendermint/libs/log\.|\*?github\.com/tendermint/tendermint/libs/common\.|\*?github\.com/pkg/errors\.|types\.NewEvent|types\.NewAttribute|\*?types\.EventManager\.|types\.Events\.|types\.Event\.|log\.|os\.Exit|time\.Now|\*?bytes\.Buffer\.)`)
 
 func (fr *frame) calleeKey(c *ssa.CallCommon) (string, *ssa.Function) {
 	if c.IsInvoke() {
@@ -236,7 +236,11 @@ func (fr *frame) opaque(key string, c *ssa.CallCommon, args []SV, cur *State, rt
 			names = append(names, k)
 		}
 		sort.Strings(names)
-		if !vc.eng.ghostSafe(key) {
+		external := callStaticExternal(c)
+		if external {
+			vc.assumes["library callee does not call back into the repository (ghost state kept): "+key] = true
+		}
+		if !vc.eng.ghostSafe(key) && !external {
 			for _, k := range names {
 				cur.heaps[k] = vc.fresh("hv_"+k, vc.heapSort[k])
 			}
@@ -623,4 +627,23 @@ func (vc *VC) mergeDyn(merged SV, cands []SV) *SV {
 		return nil
 	}
 	return &SV{t: vc.unbox(merged.t, dt), typ: dt}
+}
+
+// callStaticExternal: a statically resolved callee that lives outside the repository module.
+func callStaticExternal(c *ssa.CallCommon) bool {
+	if c == nil {
+		return false
+	}
+	if c.IsInvoke() {
+		// a method of an interface type declared outside the repository
+		if n, ok := types.Unalias(c.Value.Type()).(*types.Named); ok && n.Obj().Pkg() != nil {
+			return !strings.HasPrefix(n.Obj().Pkg().Path(), repoMod)
+		}
+		return false
+	}
+	f := c.StaticCallee()
+	if f == nil || f.Pkg == nil {
+		return false
+	}
+	return !strings.HasPrefix(f.Pkg.Pkg.Path(), repoMod)
 }
